@@ -194,13 +194,75 @@ def check_volumes(ctx, mod, cls, f, p_var):
 def check_classes(ctx):
     # GeneralVolumeSplitter.py_set_partitioning
     f = ctx.fn('simulator:GeneralVolumeSplitter.py_set_partitioning')
-    txt = [util.stmt_key(s) for s in ast.walk(f) if isinstance(s, ast.stmt)]
-    need = ['self.binomial_indices.clear()', 'self.perfect_indices.clear()', 'self.duplicate_indices.clear()',
-            'self.perfect_indices.push_back(index)', 'self.duplicate_indices.push_back(index)', 'self.binomial_indices.push_back(index)',
-            'a = set(range(m.get_number_of_species()))', 'L = list(a)']
-    problems = [n for n in need if n not in txt]
-    if txt.count('a.discard(index)') != 2:
-        problems.append('a listed species is not removed from the binomial default')
+    kk = lambda t: t.replace(' ', '')
+    problems = []
+    body = [s_ for s_ in f.body if not (isinstance(s_, ast.Expr) and isinstance(s_.value, ast.Constant))]
+    opts, mdl = f.args.args[1].arg, f.args.args[2].arg
+
+    def reaching(lst, idx, name):
+        """expression last assigned to `name` before position idx of the statement list"""
+        for st in reversed(lst[:idx]):
+            if isinstance(st, ast.Assign) and len(st.targets) == 1 and src(st.targets[0]) == name:
+                return st.value
+        return None
+    # 1. every class is emptied unconditionally before anything is put into it
+    first_push = min([i for i, st in enumerate(body) if any(isinstance(c, ast.Call) and src(c.func).endswith('_indices.push_back') for c in ast.walk(st))] or [len(body)])
+    cleared = {kk(util.stmt_key(st)) for st in body[:first_push]}
+    for v in ('binomial', 'perfect', 'duplicate'):
+        if 'self.%s_indices.clear()' % v not in cleared:
+            problems.append('%s_indices is not emptied unconditionally before the classes are rebuilt' % v)
+    # 2. the pool of all species indices
+    pools = [st for st in body if isinstance(st, ast.Assign) and kk(src(st.value)) in ('set(range(%s.get_number_of_species()))' % mdl,)]
+    if len(pools) != 1:
+        problems.append('the pool of all species indices set(range(number of species)) was not found')
+    else:
+        pool = src(pools[0].targets[0])
+        # 3. listed species: pushed into their class and removed from the pool, together
+        for mode in ('perfect', 'duplicate'):
+            blocks = [st for st in body if isinstance(st, ast.If) and kk(util.canon_test(st.test)) == "'%s'in%s" % (mode, opts)]
+            if len(blocks) != 1:
+                problems.append("no block for the '%s' option" % mode)
+                continue
+            blk = blocks[0].body
+            loops = [(i, st) for i, st in enumerate(blk) if isinstance(st, ast.For)]
+            ok_loop = False
+            for i, lp in loops:
+                it = lp.iter
+                if isinstance(it, ast.Name):
+                    it = reaching(blk, i, it.id) or it
+                if kk(src(it)) != "%s['%s']" % (opts, mode):
+                    continue
+                ok_loop = True
+                for p in paths.Enumerator().run(lp.body, paths.State()):
+                    calls = [kk(src(c)) for e in p.stmts() for c in ast.walk(e.node) if isinstance(c, ast.Call)]
+                    pushed = [c for c in calls if c.startswith('self.') and '_indices.push_back(' in c]
+                    dropped = [c for c in calls if c.startswith('%s.discard(' % pool) or c.startswith('%s.remove(' % pool)]
+                    idx_ok = {kk(util.canon_test(e.node)): e.info for e in p.events if e.kind == 'test'}
+                    valid = idx_ok.get('0<=index', idx_ok.get('index>=0'))
+                    if valid is False:
+                        if pushed or dropped:
+                            problems.append("'%s': an unknown species is classified" % mode)
+                        continue
+                    if pushed != ['self.%s_indices.push_back(index)' % mode] or dropped not in (['%s.discard(index)' % pool], ['%s.remove(index)' % pool]):
+                        problems.append("'%s': a listed species is put into %s and removed from the pool by %s" % (mode, pushed, dropped))
+            if not ok_loop:
+                problems.append("'%s': no loop over the species listed under that option" % mode)
+        # 4. everything left in the pool is binomial
+        tail = [(i, st) for i, st in enumerate(body) if isinstance(st, ast.For) and any(
+            isinstance(c, ast.Call) and kk(src(c.func)) == 'self.binomial_indices.push_back' for c in ast.walk(st))]
+        if len(tail) != 1:
+            problems.append('%d loops fill the binomial class' % len(tail))
+        else:
+            i, lp = tail[0]
+            it = lp.iter
+            if isinstance(it, ast.Name) and it.id != pool:
+                it = reaching(body, i, it.id) or it
+            if kk(src(it)) not in (pool, 'list(%s)' % pool, 'sorted(%s)' % pool, 'tuple(%s)' % pool):
+                problems.append('the binomial class is filled from %s, not from what is left of the pool' % src(it))
+            if [kk(util.stmt_key(x)) for x in lp.body] != ['self.binomial_indices.push_back(%s)' % src(lp.target)]:
+                problems.append('not every remaining index is put into the binomial class')
+            if i < max([body.index(b_) for b_ in body if isinstance(b_, ast.If)] or [0]):
+                problems.append('the binomial class is filled before the listed species are removed')
     ctx.ob('R19.1-index-classes', 'GeneralVolumeSplitter', not problems, ctx.loc('simulator', f),
            'every species index is in exactly one class: listed perfect/duplicate, all others binomial', '; '.join(problems))
     f = ctx.fn('lineage:LineageVolumeSplitter.__init__')
@@ -375,9 +437,34 @@ def check_splitter_choice(ctx):
            'a division (death) event j is reported as index #division rules + j (#death rules + j), matching the splitter choice', '')
     f = ctx.fn('lineage:LineageCSimInterface.apply_division_rules')
     loops = [s for s in f.body if isinstance(s, ast.For)]
-    ok = len(loops) == 1 and src(loops[0].iter).replace(' ', '') == 'range(self.num_division_rules)' and \
-        any(isinstance(n, ast.Return) and src(n.value) == src(loops[0].target) for n in ast.walk(loops[0])) and \
-        util.stmt_key(f.body[-1]).replace(' ', '') == 'return-1'
+    ok = len(loops) == 1 and src(loops[0].iter).replace(' ', '') == 'range(self.num_division_rules)'
+    if ok:
+        lv = src(loops[0].target)
+        fired = [n for n in ast.walk(loops[0]) if isinstance(n, ast.If)]
+        seen = set()
+        for p in paths.Enumerator().run(f.body, paths.State()):
+            if p.exit != 'return':
+                ok = False
+                continue
+            val, at = p.events[-1].node.value, len(p.events) - 1
+            for _ in range(4):      # follow plain names back along the path
+                if not isinstance(val, ast.Name) or val.id == lv:
+                    break
+                prev = None
+                for k_, e in enumerate(p.events[:at]):
+                    if e.kind == 'stmt' and isinstance(e.node, ast.Assign) and src(e.node.targets[0]) == val.id:
+                        prev = (e.node.value, k_)
+                if prev is None:
+                    break
+                val, at = prev
+            hit = any(e.kind == 'test' and e.info and e.node in [x.test for x in fired] for e in p.events)
+            if hit:
+                seen.add('fired')
+                ok = ok and isinstance(val, ast.Name) and val.id == lv
+            else:
+                seen.add('none')
+                ok = ok and util.const_num(val) == -1
+        ok = ok and seen == {'fired', 'none'}
     ctx.ob('R19.3-splitter-choice', 'apply_division_rules', ok, ctx.loc('lineage', f), 'a division rule reports its own index; no rule firing reports -1', '')
 
 
